@@ -261,3 +261,5 @@ def run(ctx):
     _run_core(ctx)
     from . import refs_misc
     refs_misc.run_for(ctx, 'C11')
+    from . import reflib
+    reflib.run_for(ctx, 'C11')
